@@ -262,6 +262,88 @@ func fileCase(mode, format string, in []byte) string {
 	return out + "\t" + sb.String() + "\t" + decoded(format, effective) + "\t" + openOK + "\t" + core.Escape(string(effective))
 }
 
+// scaleDoc: documents whose size grows with n while their structure stays the same, one kind per place where the
+// readers accumulate something token by token or line by line.
+func scaleDoc(kind string, n int) (string, []byte) {
+	var b bytes.Buffer
+	rep := func(s string, k int) {
+		for i := 0; i < k; i++ {
+			b.WriteString(s)
+		}
+	}
+	switch kind {
+	case "blanklines": // whitespace-only lines before a tree (ReadUntilSemiColon)
+		rep(" \n", n)
+		b.WriteString("(a,b);\n")
+		return "multi", b.Bytes()
+	case "longline": // one tree on one very long line (ReadLine chunks, isPrefix)
+		b.WriteString("(")
+		rep("a,", n)
+		b.WriteString("b);\n")
+		return "multi", b.Bytes()
+	case "manytrees": // many trees, one per line
+		rep("(a,b);\n", n)
+		return "multi", b.Bytes()
+	case "treesoneline": // many trees on one line (3850fd2)
+		rep("(a,b);", n)
+		b.WriteString("\n")
+		return "multi", b.Bytes()
+	case "comment-meta": // one comment made of metacharacters: one token each (consumeComment)
+		b.WriteString("(a[")
+		rep("(", n)
+		b.WriteString("],b);")
+		return "newick", b.Bytes()
+	case "comment-text": // one long comment, a single token
+		b.WriteString("(a[")
+		rep("x", n)
+		b.WriteString("],b);")
+		return "newick", b.Bytes()
+	case "star": // a star tree with n tips
+		b.WriteString("(")
+		rep("a:1,", n)
+		b.WriteString("b:1);")
+		return "newick", b.Bytes()
+	case "nexus-tree": // a Nexus tree string of many tokens (tree += lit)
+		b.WriteString("#NEXUS\nBEGIN TREES;\nTREE t = (")
+		rep("a,", n)
+		b.WriteString("b);\nEND;\n")
+		return "nexusm", b.Bytes()
+	case "nexus-comments": // many comments between commands
+		b.WriteString("#NEXUS\nBEGIN TREES;\n")
+		rep("[x]\n", n)
+		b.WriteString("TREE t = (a,b);\nEND;\n")
+		return "nexusm", b.Bytes()
+	case "nexus-matrix": // one sequence of many tokens (sequence = sequence + lit)
+		b.WriteString("#NEXUS\nBEGIN DATA;\nDIMENSIONS NTAX=1 NCHAR=" + strconv.Itoa(n) + ";\nFORMAT DATATYPE=dna;\nMATRIX\ns ")
+		rep("A ", n)
+		b.WriteString("\n;\nEND;\nBEGIN TREES;\nTREE t = (a,b);\nEND;\n")
+		return "nexusm", b.Bytes()
+	case "nexus-labels": // many taxon labels (map) and a translate table
+		b.WriteString("#NEXUS\nBEGIN TAXA;\nTAXLABELS")
+		for i := 0; i < n; i++ {
+			b.WriteString(" t" + strconv.Itoa(i))
+		}
+		b.WriteString(";\nEND;\n")
+		return "nexusm", b.Bytes()
+	case "phyloxml-wide": // many sibling clades
+		b.WriteString("<phyloxml><phylogeny><clade>")
+		rep("<clade><name>a</name></clade>", n)
+		b.WriteString("</clade></phylogeny></phyloxml>")
+		return "phyloxmlm", b.Bytes()
+	case "nextstrain-wide":
+		b.WriteString(`{"version":"v2","tree":{"name":"r","children":[`)
+		for i := 0; i < n; i++ {
+			if i > 0 {
+				b.WriteByte(',')
+			}
+			b.WriteString(`{"name":"a"}`)
+		}
+		b.WriteString("]}}")
+		return "nextstrainm", b.Bytes()
+	}
+	return "", nil
+}
+
 // nestDocX: the same nesting in the other formats
 func nestDocX(format string, depth int) []byte {
 	var b bytes.Buffer
@@ -419,6 +501,24 @@ func handle(line string) string {
 			fmt.Fprintf(&sb, "%d:tree:%s:%s|", r.id, class, dump)
 		}
 		return out + "\t" + sb.String() + "\t" + decoded(f[1], []byte(in))
+	case "scale":
+		// scaling probe: time of the reader alone on a document of the given kind and size
+		if len(f) != 3 {
+			return "bad"
+		}
+		n, _ := strconv.Atoi(f[2])
+		format, doc := scaleDoc(f[1], n)
+		if format == "" {
+			return "bad"
+		}
+		t0 := time.Now()
+		recs, _, rerr := readAll(format, 0, doc)
+		us := time.Since(t0).Microseconds()
+		out := "ok"
+		if rerr != nil {
+			out = "err"
+		}
+		return fmt.Sprintf("%s\t%d\t%d\t%d", out, len(recs), len(doc), us)
 	case "file":
 		// file-level entry points: utils.ReadTree / GetReader + ReadMultiTrees on a real file
 		if len(f) != 4 {
